@@ -60,6 +60,9 @@ class Cog6(ExactSolver):
         bigGamma = self.Gamma
         c1 = (k + 1 + self.b) / 2
         x1 = pow(self.tau, 2) - pow(t, 2)
+        if x1 <= 0:
+            # No valid (real) solution for |t| >= tau
+            x1 = np.nan
 
         density = self.rho0 * pow(r, self.b) / pow(x1, c1) * \
             np.ones(shape=r.shape)  # mass density [g/cc]
